@@ -22,9 +22,10 @@ def units(tier):
 
 
 def bounded(tier, seed):
-    from pyvc.native_bridge import bounded_harness
+    from pyvc.native_bridge import bounded_harness, bounded_paint
     return [bounded_harness(tier, "C09", "iou-oracle", "iou = |A&B|/|A|B| per edge after every edit/undo/redo, after bulk computation at construction "
-                            "and after enable_features", seed, segonly=True)]
+                            "and after enable_features", seed, segonly=True),
+            bounded_paint(tier, "C09", "iou of every edge equals the masks' after the stroke, its undo and its redo")]
 
 
 def witness(label, failure, seed):
